@@ -1,4 +1,5 @@
 import AtreeProofs.Trans.MapDescent
+import AtreeProofs.Props.TransElemSlab
 /-
   WP13 (map descent, Remove): the generated `MapMetaDataSlab_Remove` / `MapDataSlab_Remove` / `MapSlab_Remove` of
   `Gen/TransMapDescent.lean` (namespace `Atree.Gen.TransMapD`) over a heap of slabs (`envD T eb rs`, Trans/MapDescent.lean).
@@ -308,6 +309,191 @@ theorem mdr_Remove_prefix (hhk : hk < 2^64) (hfk : ∀ h ∈ m.childHdrs, h.firs
                     rfl
                   | false => rfl
 
+/-- ONE level of `MapMetaDataSlab.Remove` (for ANY restructuring record `rs`, ANY element layer `eb`): the search finds
+    child `i`, the heap holds `child` under the identifier of header `i`, the dispatch on the child returned
+    `(rk, rv, nil, child', s1)`.  Then the receiver gets header `i` := `child'.Header()` and (iff `i = 0`) its `firstKey`
+    refreshed (`mdr_m1`), and (`mdr_after`): `SplitChildSlab` if `child'` is full, else `MergeOrRebalanceChildSlab` if it
+    underflows, else `storeSlab(m)`; the removed key / value are returned -/
+theorem Ob_MapMetaDataSlab_Remove_step (hhk : hk < 2^64) (hfk : ∀ h ∈ m.childHdrs, h.firstKey < 2^64)
+    (hlen : m.childHdrs.length < 2^62) (i : Nat)
+    (hfind : MMetaSlab.findChild m.childHdrs hk 0 m.childHdrs.length none (m.childHdrs.length + 1) = some i)
+    (hi : i < m.childHdrs.length) (child child' : DSlab r) (s1 : MHSt r) (rk rv : Option SV)
+    (hheap : s.heap (m.childHdrs.getD i default).id = some child)
+    (hdisp : MapSlab_Remove (envD T eb rs) (MapMetaDataSlab_Remove (envD T eb rs) depth) child s k (u64 0) (u64 hk) (.key k) =
+      some (rk, rv, none, child', s1)) :
+    MapMetaDataSlab_Remove (envD T eb rs) (depth + 1) (md_meta m x) s k (u64 0) (u64 hk) (.key k) =
+      mdr_after T eb rs (mdr_m1 (md_meta m x) i (mdr_hdrOf child')) s1 child' i rk rv := by
+  obtain ⟨hn, hh⟩ := mdr_disp_nonnil T eb rs hdisp
+  rw [mdr_Remove_prefix T eb rs m x s k hk depth hhk hfk hlen i hfind hi]
+  simp only [mdr_getMapSlab_found T eb rs s _ child hheap hn, Option.isNone_none, Bool.not_true, Bool.false_eq_true,
+    if_false, hdisp, hh]
+
+/-- the child is not in the storage: `SlabNotFoundError`, nothing changed -/
+theorem Ob_MapMetaDataSlab_Remove_slabNotFound (hhk : hk < 2^64) (hfk : ∀ h ∈ m.childHdrs, h.firstKey < 2^64)
+    (hlen : m.childHdrs.length < 2^62) (i : Nat)
+    (hfind : MMetaSlab.findChild m.childHdrs hk 0 m.childHdrs.length none (m.childHdrs.length + 1) = some i)
+    (hi : i < m.childHdrs.length) (hheap : s.heap (m.childHdrs.getD i default).id = none) :
+    MapMetaDataSlab_Remove (envD T eb rs) (depth + 1) (md_meta m x) s k (u64 0) (u64 hk) (.key k) =
+      some (none, none, some .slabNotFound, md_meta m x, s) := by
+  rw [mdr_Remove_prefix T eb rs m x s k hk depth hhk hfk hlen i hfind hi]
+  simp only [mdr_getMapSlab_none T eb rs s _ hheap, Option.isNone_some, Bool.not_false, if_true]
+
+/-- the child's `Remove` returned an error: passed on, the receiver unchanged (no header refresh, no store) -/
+theorem Ob_MapMetaDataSlab_Remove_childErr (hhk : hk < 2^64) (hfk : ∀ h ∈ m.childHdrs, h.firstKey < 2^64)
+    (hlen : m.childHdrs.length < 2^62) (i : Nat)
+    (hfind : MMetaSlab.findChild m.childHdrs hk 0 m.childHdrs.length none (m.childHdrs.length + 1) = some i)
+    (hi : i < m.childHdrs.length) (child child' : DSlab r) (s1 : MHSt r) (rk rv : Option SV) (e : GE)
+    (hheap : s.heap (m.childHdrs.getD i default).id = some child)
+    (hdisp : MapSlab_Remove (envD T eb rs) (MapMetaDataSlab_Remove (envD T eb rs) depth) child s k (u64 0) (u64 hk) (.key k) =
+      some (rk, rv, some e, child', s1)) :
+    MapMetaDataSlab_Remove (envD T eb rs) (depth + 1) (md_meta m x) s k (u64 0) (u64 hk) (.key k) =
+      some (none, none, some e, md_meta m x, s1) := by
+  obtain ⟨hn, _⟩ := mdr_disp_nonnil T eb rs hdisp
+  rw [mdr_Remove_prefix T eb rs m x s k hk depth hhk hfk hlen i hfind hi]
+  simp only [mdr_getMapSlab_found T eb rs s _ child hheap hn, Option.isNone_none, Bool.not_true, Bool.false_eq_true,
+    if_false, hdisp, Option.isNone_some, Bool.not_false, if_true]
+
+/-- the store branch spelled out: neither full nor underflowing -> `storeSlab(m)` -/
+theorem Ob_MapMetaDataSlab_Remove_step_store (hhk : hk < 2^64) (hfk : ∀ h ∈ m.childHdrs, h.firstKey < 2^64)
+    (hlen : m.childHdrs.length < 2^62) (i : Nat)
+    (hfind : MMetaSlab.findChild m.childHdrs hk 0 m.childHdrs.length none (m.childHdrs.length + 1) = some i)
+    (hi : i < m.childHdrs.length) (child child' : DSlab r) (s1 : MHSt r) (rk rv : Option SV)
+    (hheap : s.heap (m.childHdrs.getD i default).id = some child)
+    (hdisp : MapSlab_Remove (envD T eb rs) (MapMetaDataSlab_Remove (envD T eb rs) depth) child s k (u64 0) (u64 hk) (.key k) =
+      some (rk, rv, none, child', s1))
+    (hfull : MapSlab_IsFull (envD T eb rs) child' = some false) (u : UInt32)
+    (hunder : MapSlab_IsUnderflow (envD T eb rs) child' = some (u, false)) :
+    MapMetaDataSlab_Remove (envD T eb rs) (depth + 1) (md_meta m x) s k (u64 0) (u64 hk) (.key k) =
+      some (rk, rv, none, mdr_m1 (md_meta m x) i (mdr_hdrOf child'),
+        s1.store m.hdr.id (.metaSlab (mdr_m1 (md_meta m x) i (mdr_hdrOf child')))) := by
+  rw [Ob_MapMetaDataSlab_Remove_step T eb rs m x s k hk depth hhk hfk hlen i hfind hi child child' s1 rk rv hheap hdisp]
+  simp only [mdr_after, hfull, hunder]
+  have : (mdr_m1 (md_meta m x) i (mdr_hdrOf child')).header.slabID = m.hdr.id := by
+    simp only [mdr_m1]; split <;> rfl
+  rw [this]
+
+/-- the split branch spelled out -/
+theorem Ob_MapMetaDataSlab_Remove_step_split (hhk : hk < 2^64) (hfk : ∀ h ∈ m.childHdrs, h.firstKey < 2^64)
+    (hlen : m.childHdrs.length < 2^62) (i : Nat)
+    (hfind : MMetaSlab.findChild m.childHdrs hk 0 m.childHdrs.length none (m.childHdrs.length + 1) = some i)
+    (hi : i < m.childHdrs.length) (child child' : DSlab r) (s1 : MHSt r) (rk rv : Option SV)
+    (hheap : s.heap (m.childHdrs.getD i default).id = some child)
+    (hdisp : MapSlab_Remove (envD T eb rs) (MapMetaDataSlab_Remove (envD T eb rs) depth) child s k (u64 0) (u64 hk) (.key k) =
+      some (rk, rv, none, child', s1))
+    (hfull : MapSlab_IsFull (envD T eb rs) child' = some true) (m' : MapMetaDataSlab DX) (s' : MHSt r) (c'' : DSlab r)
+    (hsplit : rs.splitChild (mdr_m1 (md_meta m x) i (mdr_hdrOf child')) s1 child' (Int.ofNat i) = (none, m', s', c'')) :
+    MapMetaDataSlab_Remove (envD T eb rs) (depth + 1) (md_meta m x) s k (u64 0) (u64 hk) (.key k) =
+      some (rk, rv, none, m', s') := by
+  rw [Ob_MapMetaDataSlab_Remove_step T eb rs m x s k hk depth hhk hfk hlen i hfind hi child child' s1 rk rv hheap hdisp]
+  simp only [mdr_after, hfull, hsplit, Option.isNone_none, Bool.not_true, Bool.false_eq_true, if_false]
+
+/-- the merge / rebalance branch spelled out -/
+theorem Ob_MapMetaDataSlab_Remove_step_merge (hhk : hk < 2^64) (hfk : ∀ h ∈ m.childHdrs, h.firstKey < 2^64)
+    (hlen : m.childHdrs.length < 2^62) (i : Nat)
+    (hfind : MMetaSlab.findChild m.childHdrs hk 0 m.childHdrs.length none (m.childHdrs.length + 1) = some i)
+    (hi : i < m.childHdrs.length) (child child' : DSlab r) (s1 : MHSt r) (rk rv : Option SV)
+    (hheap : s.heap (m.childHdrs.getD i default).id = some child)
+    (hdisp : MapSlab_Remove (envD T eb rs) (MapMetaDataSlab_Remove (envD T eb rs) depth) child s k (u64 0) (u64 hk) (.key k) =
+      some (rk, rv, none, child', s1))
+    (hfull : MapSlab_IsFull (envD T eb rs) child' = some false) (u : UInt32)
+    (hunder : MapSlab_IsUnderflow (envD T eb rs) child' = some (u, true)) (m' : MapMetaDataSlab DX) (s' : MHSt r)
+    (c'' : DSlab r)
+    (hmor : rs.mergeOrRebalance (mdr_m1 (md_meta m x) i (mdr_hdrOf child')) s1 child' (Int.ofNat i) u = (none, m', s', c'')) :
+    MapMetaDataSlab_Remove (envD T eb rs) (depth + 1) (md_meta m x) s k (u64 0) (u64 hk) (.key k) =
+      some (rk, rv, none, m', s') := by
+  rw [Ob_MapMetaDataSlab_Remove_step T eb rs m x s k hk depth hhk hfk hlen i hfind hi child child' s1 rk rv hheap hdisp]
+  simp only [mdr_after, hfull, hunder, hmor, Option.isNone_none, Bool.not_true, Bool.false_eq_true, if_false]
+
 end step
+
+/-! ## non-vacuity: a 2-child index slab over two data slabs, the element layer of WP11 (`mei_envH`) -/
+
+namespace MdrEx
+open MeiEx
+def ebx : DEnvB 0 := mei_envH (MElems.ops 0) cfg k1 v3 (fun c _ => (.nil, false, none, c))
+theorem ebx_ok : ElemsSpec cfg k1 v3 (fun _ => True) ebx :=
+  ElemsSpec.of_EnvB (mei_envH_ok (MElems.ops 0) cfg k1 v3 _)
+def kB : MKey := { size := 3, pay := 21, digs := [20, 1] }
+def xB : SElem := { key := kB, val := v2, size := 8 }
+def dA : MDataSlab 0 :=
+  { hdr := { id := ⟨1, 2⟩, size := 24, firstKey := 5 }, next := ⟨1, 3⟩,
+    elems := ({ level := 0, hkeys := [5], elems := [.single x1], size := 20 } : HkeyElems SingleElems), root := false, inlined := false }
+def dB : MDataSlab 0 :=
+  { hdr := { id := ⟨1, 3⟩, size := 24, firstKey := 20 }, next := SlabID.undef,
+    elems := ({ level := 0, hkeys := [20], elems := [.single xB], size := 20 } : HkeyElems SingleElems), root := false, inlined := false }
+def mm : MMetaSlab (MTree 0 0) :=
+  { hdr := { id := ⟨1, 1⟩, size := 50, firstKey := 5 }, childHdrs := [dA.hdr, dB.hdr], children := [dA, dB], root := true }
+def xx : Option DX := some (0, 2, 0)
+def s0 : MHSt 0 :=
+  { heap := fun id => if id = ⟨1, 2⟩ then some (.dataSlab (md_data dA none))
+      else if id = ⟨1, 3⟩ then some (.dataSlab (md_data dB none)) else none, ctx := c0 }
+def rsx : DRestruct 0 :=
+  { splitChild := fun m s c _ => (none, m, s, c), mergeOrRebalance := fun m s c _ _ => (none, m, s, c),
+    splitRoot := fun m => (none, m), promote := fun m _ => (none, m) }
+
+/-- the leaf after `k1` left: empty, header refreshed -/
+def dA' : MDataSlab 0 :=
+  { hdr := { id := ⟨1, 2⟩, size := 22, firstKey := 0 }, next := ⟨1, 3⟩,
+    elems := ({ level := 0, hkeys := [], elems := [], size := 4 } : HkeyElems SingleElems), root := false, inlined := false }
+def cA : Ctx := { ctr := 5, eff := [.store ⟨1, 2⟩] }
+
+/-- non-vacuity of `Ob_MapDataSlab_Remove_heap`: the key is removed, the slab stored -/
+example (T : Nat) : MapDataSlab_Remove (envD T ebx rsx) (md_data dA none) s0 k1 (u64 0) (u64 5) (.key k1) =
+    some (some (.key k1), some (.val v1), none, md_data dA' none, mdr_leafSt s0 dA' none cA) :=
+  (Ob_MapDataSlab_Remove_heap T ebx rsx cfg k1 v3 _ ebx_ok dA none rfl trivial s0).trans rfl
+
+/-- ... and an absent key: `KeyNotFoundError`, nothing changed -/
+example (T : Nat) : MapDataSlab_Remove (envD T ebx rsx) (md_data dB none) s0 k1 (u64 0) (u64 5) (.key k1) =
+    some (none, none, some .keyNotFound, md_data dB none, s0) :=
+  (Ob_MapDataSlab_Remove_heap T ebx rsx cfg k1 v3 _ ebx_ok dB none rfl trivial s0).trans rfl
+
+theorem hdispA (T depth : Nat) :
+    MapSlab_Remove (envD T ebx rsx) (MapMetaDataSlab_Remove (envD T ebx rsx) depth) (.dataSlab (md_data dA none)) s0 k1 (u64 0)
+      (u64 5) (.key k1) =
+    some (some (.key k1), some (.val v1), none, .dataSlab (md_data dA' none), mdr_leafSt s0 dA' none cA) := by
+  simp only [MapSlab_Remove]
+  rw [show u64 5 = u64 (k1.dig 0) from rfl, Ob_MapDataSlab_Remove_heap T ebx rsx cfg k1 v3 _ ebx_ok dA none rfl trivial s0]
+  rfl
+
+/-- the receiver after the descent: header 0 := the child's new header, `firstKey` refreshed (5 -> 0) -/
+def mm1 : MapMetaDataSlab DX :=
+  { header := { slabID := ⟨1, 1⟩, size := 50, firstKey := 0 },
+    childrenHeaders := [{ slabID := ⟨1, 2⟩, size := 22, firstKey := 0 }, { slabID := ⟨1, 3⟩, size := 24, firstKey := 20 }],
+    extraData := xx }
+
+/-- non-vacuity of the step theorem, store branch (`T = 16`: 8 <= 22 <= 24): header and firstKey refreshed, `storeSlab` -/
+example : MapMetaDataSlab_Remove (envD 16 ebx rsx) 1 (md_meta mm xx) s0 k1 (u64 0) (u64 5) (.key k1) =
+    some (some (.key k1), some (.val v1), none, mm1, (mdr_leafSt s0 dA' none cA).store ⟨1, 1⟩ (.metaSlab mm1)) :=
+  Ob_MapMetaDataSlab_Remove_step_store 16 ebx rsx mm xx s0 k1 5 0 (by decide) (by decide) (by decide) 0 rfl (by decide)
+    _ _ _ _ _ rfl (hdispA 16 0) rfl 0 rfl
+
+/-- split branch (`T = 4`: 22 > 6): `rs.splitChild` is called with the refreshed receiver -/
+example : MapMetaDataSlab_Remove (envD 4 ebx rsx) 1 (md_meta mm xx) s0 k1 (u64 0) (u64 5) (.key k1) =
+    some (some (.key k1), some (.val v1), none, mm1, mdr_leafSt s0 dA' none cA) :=
+  Ob_MapMetaDataSlab_Remove_step_split 4 ebx rsx mm xx s0 k1 5 0 (by decide) (by decide) (by decide) 0 rfl (by decide)
+    _ _ _ _ _ rfl (hdispA 4 0) rfl _ _ _ rfl
+
+/-- merge / rebalance branch (`T = 1024`: 512 > 22) -/
+example : MapMetaDataSlab_Remove (envD 1024 ebx rsx) 1 (md_meta mm xx) s0 k1 (u64 0) (u64 5) (.key k1) =
+    some (some (.key k1), some (.val v1), none, mm1, mdr_leafSt s0 dA' none cA) :=
+  Ob_MapMetaDataSlab_Remove_step_merge 1024 ebx rsx mm xx s0 k1 5 0 (by decide) (by decide) (by decide) 0 rfl (by decide)
+    _ _ _ _ _ rfl (hdispA 1024 0) rfl (u32 490) rfl _ _ _ rfl
+
+/-- a digest below every child's first key: `KeyNotFoundError` (`ans` stays -1) -/
+example (T : Nat) : MapMetaDataSlab_Remove (envD T ebx rsx) 1 (md_meta mm xx) s0 k4 (u64 0) (u64 3) (.key k4) =
+    some (none, none, some .keyNotFound, md_meta mm xx, s0) :=
+  Ob_MapMetaDataSlab_Remove_keyNotFound T ebx rsx mm xx s0 k4 3 0 (by decide) (by decide) (by decide) rfl
+
+/-- the child is missing from the storage: `SlabNotFoundError` -/
+example (T : Nat) : MapMetaDataSlab_Remove (envD T ebx rsx) 1 (md_meta mm xx) { s0 with heap := fun _ => none } k1 (u64 0) (u64 5)
+      (.key k1) =
+    some (none, none, some .slabNotFound, md_meta mm xx, { s0 with heap := fun _ => none }) :=
+  Ob_MapMetaDataSlab_Remove_slabNotFound T ebx rsx mm xx _ k1 5 0 (by decide) (by decide) (by decide) 0 rfl (by decide) rfl
+
+/-- the binary search on the two headers (first keys 5, 20) -/
+example : ∃ i' j', MapMetaDataSlab_Remove.loop1 (envD 16 ebx rsx) (md_meta mm xx) (u64 20) 3 (-1) 0 2 =
+    .done (1, i', j') :=
+  mdr_Remove_loop1_top (envD 16 ebx rsx) mm xx 20 (by decide) (by decide) (by decide)
+end MdrEx
 
 end Atree.TransEq
